@@ -671,6 +671,8 @@ func (s *AbsfsNFS) RemoveWithContext(ctx context.Context, dir *NFSNode, name str
 	s.attrCache.Invalidate(dir.path)
 	if s.dirCache != nil {
 		s.dirCache.Invalidate(dir.path)
+		// the removed object may have been an (empty) directory with a cached listing
+		s.dirCache.Invalidate(path)
 	}
 	return nil
 }
